@@ -173,6 +173,8 @@ def is_num(v):
 def to_sc(v):
     if isinstance(v, Sc):
         return v.e
+    if isinstance(v, SOpt):
+        raise Unsupported('arithmetic on an optional slot that is not known to be filled')
     if isinstance(v, bool):
         return lit(int(v))
     if isinstance(v, (int, float, Fraction)):
@@ -293,6 +295,7 @@ class Interp(object):
         self.counter = 0
         self.try_depth_zero_div = 0
         self.nofork = 0
+        self.sym_lists = {}
         self.defs = {}
         self.spec_starts = []
         self.denominators = None
@@ -305,28 +308,30 @@ class Interp(object):
         results = []
         stack = [[]]
         npaths = 0
-        while stack:
-            prefix = stack.pop()
-            npaths += 1
-            if npaths > self.MAX_PATHS:
-                raise Unsupported('more than %d paths' % self.MAX_PATHS)
-            self.prefix = prefix
-            self.decisions = []
-            self.known = {}
-            self.trace = []
-            self.counter = saved[4]
-            err = None
-            value = None
-            try:
-                value = thunk()
-            except PyRaise as r:
-                err = r.exc
-            trace = self.trace
-            decs = self.decisions
-            results.append((trace, value, err))
-            for i in range(len(prefix), len(decs)):
-                stack.append(decs[:i] + [not decs[i]])
-        (self.prefix, self.decisions, self.known, self.trace, self.counter) = saved
+        try:
+            while stack:
+                prefix = stack.pop()
+                npaths += 1
+                if npaths > self.MAX_PATHS:
+                    raise Unsupported('more than %d paths' % self.MAX_PATHS)
+                self.prefix = prefix
+                self.decisions = []
+                self.known = {}
+                self.trace = []
+                self.counter = saved[4]
+                err = None
+                value = None
+                try:
+                    value = thunk()
+                except PyRaise as r:
+                    err = r.exc
+                trace = self.trace
+                decs = self.decisions
+                results.append((trace, value, err))
+                for i in range(len(prefix), len(decs)):
+                    stack.append(decs[:i] + [not decs[i]])
+        finally:
+            (self.prefix, self.decisions, self.known, self.trace, self.counter) = saved
         return self._merge(results)
 
     def _merge(self, results):
@@ -597,7 +602,8 @@ class Interp(object):
         if isinstance(v, (FuncRef, ClsRef, Builtin, Opaque)):
             return True
         if isinstance(v, SOpt):
-            raise Unsupported('truthiness of optional slot')
+            pv = self.payload(v)
+            return self.truth(pv)
         raise Unsupported('truthiness of %r' % (v,))
 
     def test(self, v):
@@ -606,7 +612,26 @@ class Interp(object):
             return t
         return self.decide(t.e)
 
+    def payload(self, v):
+        """Value inside an optional slot on a path where it is known to be filled."""
+        key = repr(('isnone', v.name))
+        if self.known.get(key) is not False:
+            raise Unsupported('use of optional slot %s not guarded by `is not None`' % v.name)
+        k = v.kind if isinstance(v.kind, str) else None
+        if k == 'S':
+            return Sc(('var', '(%s.getD 0)' % v.name))
+        if k == 'B':
+            return Bo(('bvar', '(%s.getD false)' % v.name))
+        raise Unsupported('payload of optional slot of kind %r' % (v.kind,))
+
     def arith(self, op, a, b):
+        if isinstance(a, SOpt):
+            a = self.payload(a)
+        if isinstance(b, SOpt):
+            b = self.payload(b)
+        if type(a).__name__ == 'SymIdx' and isinstance(b, int) and op in ('add', 'sub'):
+            import symloops
+            return symloops.SymIdx(a.key, a.off + (b if op == 'add' else -b))
         if isinstance(a, Obj) or isinstance(b, Obj):
             return self.obj_binop(op, a, b)
         if isinstance(a, bool):
@@ -730,6 +755,10 @@ class Interp(object):
             if op == 'in':
                 return r
             return (not r) if isinstance(r, bool) else Bo(mk_not(r.e))
+        if isinstance(a, SOpt):
+            a = self.payload(a)
+        if isinstance(b, SOpt):
+            b = self.payload(b)
         if isinstance(a, Obj) or isinstance(b, Obj):
             return self.obj_compare(op, a, b)
         if isinstance(a, (tuple, list)) and isinstance(b, (tuple, list)):
@@ -881,6 +910,8 @@ class Interp(object):
             return self.truth(args[0])
         if name == 'abs':
             v = args[0]
+            if isinstance(v, SOpt):
+                v = self.payload(v)
             if is_num(v):
                 return abs(v)
             if isinstance(v, Obj):
@@ -907,7 +938,8 @@ class Interp(object):
                 if m is not None:
                     return self.call_function(m, [], {}, bound=v)
             if isinstance(v, SList):
-                raise Unsupported('len of symbolic list')
+                import symloops
+                return Sc(('raw', '((%s).length : α)' % symloops.list_term(v.le)))
             raise PyRaise('TypeError')
         if name == 'range':
             if all(isinstance(a, int) for a in args):
@@ -931,6 +963,10 @@ class Interp(object):
             it = list(self.iterate(args[0]))
             return tuple(it) if name == 'tuple' else it
         if name == 'sum':
+            if isinstance(args[0], SList):
+                import symloops
+                return symloops.sym_sum(None if False else _FrameShim(self), args[0],
+                                        args[1] if len(args) > 1 else 0)
             it = list(self.iterate(args[0]))
             acc = args[1] if len(args) > 1 else 0
             for x in it:
@@ -1034,6 +1070,11 @@ class Interp(object):
         if isinstance(v, SList):
             raise Unsupported('iteration over symbolic list outside a supported loop')
         raise Unsupported('iteration over %r' % (v,))
+
+
+class _FrameShim(object):
+    def __init__(self, interp):
+        self.I = interp
 
 
 class BoundBuiltinMethod(object):
@@ -1722,7 +1763,9 @@ class Frame(object):
         if len(e.generators) == 1:
             g = e.generators[0]
             it = self.eval(g.iter)
-            if isinstance(it, SList):
+            if isinstance(it, SList) or (isinstance(it, tuple) and len(it) == 2 and
+                                         it[0] == 'enumerate' and
+                                         isinstance(it[1], SList)):
                 import symloops
                 return symloops.sym_comprehension(self, e, it)
         out = []
